@@ -127,6 +127,7 @@ static var thread_main(var args) {
   int idx = (int)c_int(get(args, $I(0)));
   { volatile int ok = 0;
     try { struct TProbe* hp = get(current(Thread), $S("handoff")); ok = (hp->canary == 0x7470726f6265LL && hp->val == 5000 + idx) ? 1 : 0; } catch (e) { ok = -1; }
+    if (ok == 1 && mem(current(Thread), $S("scratch"))) ok = -2;        /* the creator removed that key from THIS thread's storage before the start */
     atomic_store(&handoff_ok[idx], ok); } uint64_t seed = (uint64_t)c_int(get(args, $I(1))); int rounds = (int)c_int(get(args, $I(2)));
   my_idx = idx;
   work(seed, rounds, &res_thr[idx], 1, idx);
@@ -179,6 +180,12 @@ int main(int argc, char** argv) {
       /* state handed to a thread before it starts: the parent puts a value into the (not yet running) thread's storage, keeps
          no other reference, and collects; the thread must find it intact */
       for (int i = 0; i < k; i++) { atomic_store(&handoff_ok[i], 0); set(th[i], $S("handoff"), new(TProbe, $I(5000 + i))); }
+      /* get / set / mem / rem on a Thread object address THAT thread's storage, whoever calls: the creator keeps a key of the same
+         name in its own storage, puts one into every new thread's and takes it out again */
+      static var scratch_val; if (!scratch_val) scratch_val = new_root(Int, $I(77));
+      set(current(Thread), $S("scratch"), scratch_val);
+      for (int i = 0; i < k; i++) { set(th[i], $S("scratch"), scratch_val); if (!mem(th[i], $S("scratch"))) atomic_store(&foreign_retire, 1000); rem(th[i], $S("scratch")); if (mem(th[i], $S("scratch"))) atomic_store(&foreign_retire, 1001); }
+      if (!mem(current(Thread), $S("scratch"))) atomic_store(&foreign_retire, 1002);
       scrub(); GC_Mark(current(GC)); GC_Sweep(current(GC));
       for (int i = 0; i < k; i++) {
         if (!a_idx[i]) { a_idx[i] = new_root(Int, $I(i)); a_seed[i] = new_root(Int, $I(0)); }
